@@ -17,7 +17,12 @@ CONFIGS = {'linear': ['-t', 'ext2', '-O', '^dir_index', '-b', '1024'], 'indexed'
            'indexed_csum': ['-t', 'ext4', '-O', '^has_journal,metadata_csum', '-b', '1024'], 'inline': ['-t', 'ext4', '-O', '^has_journal,inline_data,metadata_csum', '-b', '1024', '-I', '256'],
            'nofiletype': ['-t', 'ext4', '-O', '^has_journal,^filetype,^metadata_csum', '-b', '1024'], 'indexed_4k': ['-t', 'ext4', '-O', '^has_journal,^metadata_csum', '-b', '4096'],
            'largedir_2k': ['-t', 'ext4', '-O', '^has_journal,large_dir,^metadata_csum', '-b', '2048']}
+# superblock settings made after mke2fs: hash algorithm (legacy 0, half_md4 1, tea 2) and the signed (1) / unsigned (2) hash flag of the creating architecture
+CONFIGS.update({'tea_unsigned': CONFIGS['indexed'], 'tea_signed': CONFIGS['indexed'], 'legacy_unsigned': CONFIGS['indexed'], 'md4_unsigned_csum': CONFIGS['indexed_csum']})
+POST = {'tea_unsigned': ['ssv def_hash_version 2', 'ssv flags 2'], 'tea_signed': ['ssv def_hash_version 2', 'ssv flags 1'], 'legacy_unsigned': ['ssv def_hash_version 0', 'ssv flags 2'],
+        'md4_unsigned_csum': ['ssv def_hash_version 1', 'ssv flags 2']}
 def names(seq, n):
+    if seq == 'hibit': return ['n\xe9\xfc\x80%03d\xff' % i for i in range(n)]          # bytes >= 0x80: signed and unsigned hash flavours differ on these
     if seq == 'short': return ['n%03d' % i for i in range(n)]
     if seq == 'long': return ['%s_%04d' % ('W' * 245, i) for i in range(n)]
     if seq == 'mixed': return [('m%d_' % i) + 'x' * ((i * 37) % 200) for i in range(n)]
@@ -70,7 +75,7 @@ def check_state(data, model, tnlink, label, full=True):
 
 def dbg(p, cmds):
     sp = p + '.dbg'
-    open(sp, 'w').write('cd /T\n' + '\n'.join(cmds) + '\n')
+    open(sp, 'w', encoding='latin1').write('cd /T\n' + '\n'.join(cmds) + '\n')          # names are byte strings (one character per byte)
     return run([DEBUGFS, '-w', '-f', sp, p], timeout=120)
 
 def dirblocks(data):
@@ -90,6 +95,7 @@ def sweep_job(j):
     bs4 = '4096' in CONFIGS[cfg]
     rc, out = run([MKE2FS, '-q', '-F', '-N', str(N + 64), '-U', '6b33f586-a183-4383-921d-30ab132db9b9', '-E', 'hash_seed=a0c4b9f1-7e1d-4c6b-8f4e-9d2f1b3c5a70'] + CONFIGS[cfg] + [p, '6M' if not bs4 else '16M'], timeout=60)
     if rc: return (cfg, seq, ['mke2fs failed: %s' % out[-200:]], 0, [])
+    for c_ in POST.get(cfg, []): run([DEBUGFS, '-w', '-R', c_, p])
     run([DEBUGFS, '-w', '-R', 'mkdir /T', p])
     run([DEBUGFS, '-w', '-R', 'write /dev/null /n005', p])         # a root-level namesake of a name in /T (ROOTMODEL)
     nm = names(seq, N)
@@ -237,12 +243,15 @@ def main(tier, only=None):
     MKE2FS = tool('mke2fs'); DEBUGFS = tool('debugfs'); E2FSCK = tool('e2fsck'); fsweep.init_scratch()
     quick = tier == 'quick'
     ck.set_deadline(450 if quick else 3000)
-    cfgs = only or (['linear', 'indexed', 'indexed_csum', 'inline'] if quick else list(CONFIGS))
+    cfgs = only or (['linear', 'indexed', 'indexed_csum', 'inline'] if quick else [c for c in CONFIGS if c not in POST])
     jobs = []
     for c in cfgs:
         for seq, N in (('short', 300 if quick else 700), ('long', 400 if quick else 620), ('mixed', 200 if quick else 500)):
             if quick and seq == 'mixed' and c not in ('indexed', 'inline'): continue
             jobs.append((c, seq, N, quick))
+    if not only:
+        for c in (['tea_unsigned', 'legacy_unsigned'] if quick else list(POST)):
+            jobs.append((c, 'hibit', 180 if quick else 400, quick))
     res = pmap(sweep_job, jobs, chunksize=1)
     steps = 0; thr = []
     for cfg, seq, bad, n, thresholds in res:
